@@ -354,9 +354,12 @@ def conformance(part: Part) -> None:
                 k = 0
                 for call in seq:
                     if call[0] == "append":
-                        b.append_logs([rec(0, k, j) for j in range(call[1])])
+                        try:
+                            b.append_logs([rec(0, k, j) for j in range(call[1])])
+                            out.append(None)
+                        except Exception as e:
+                            out.append(("raised", type(e).__name__))
                         k += 1
-                        out.append(None)
                     elif call[0] == "tear":
                         with getattr(jf, "open", open)(path, "ab") as fh:  # the module's own open: fake or real
                             fh.write(b'{"op_code": 4, "torn')
@@ -368,7 +371,10 @@ def conformance(part: Part) -> None:
                     elif call[0] == "rawsize":
                         out.append(jf.os.stat(path).st_size)
                     else:
-                        out.append(b.read_logs(call[1]))
+                        try:
+                            out.append(b.read_logs(call[1]))
+                        except Exception as e:  # the same on both sides, or the model is wrong
+                            out.append(("raised", type(e).__name__))
                 if mode == "sim":
                     data = bytes(fs.files[path].data)
                     left = sorted(x for x in fs.files if x != path)
